@@ -79,3 +79,48 @@ def targets(tier):
         Target("codec.nodes.SymbolTable.write.entry_iteration", "mypy.nodes:SymbolTable.write", setup_write, loop_body=("for key in sorted(self)", None),
                ensures=[("writes-exactly-the-kept-entries", ens_write)], raises=(), overrides=ov, field_types=FT),
     ]
+
+
+# ---- order of a namespace: SymbolTable is a dict and its insertion order is the declaration order, which
+# the analysis reads back (TypeInfo.enum_members walks `names`; the expansion of an enum into its members,
+# and so the text of narrowed types, follows that order).  A reloaded table must therefore enumerate its
+# symbols in the order of the table that was written.
+
+
+def check_table_order():
+    import ast
+    from pyvc.interp import func_node
+    from pyvc.target import resolve
+
+    obs = []
+    fnode, _ = func_node(resolve("mypy.nodes:SymbolTable.write"))
+    loops = [n for n in ast.walk(fnode) if isinstance(n, ast.For) and any(isinstance(c, ast.Call) and ast.unparse(c.func).endswith("value.write") for c in ast.walk(n))]
+    if len(loops) != 1:
+        obs.append({"name": "symtab/binary-writer-keeps-table-order", "status": "unknown", "where": f"{len(loops)} entry loops in SymbolTable.write"})
+    else:
+        it = ast.unparse(loops[0].iter).replace(" ", "")
+        st = "discharged" if it in ("self", "self.items()", "self.keys()") else "refuted" if it.startswith("sorted(") else "unknown"
+        obs.append({"name": "symtab/binary-writer-keeps-table-order", "status": st, "where": f"mypy/nodes.py SymbolTable.write: for ... in {it}",
+                    "detail": "" if st == "discharged" else "the entries are written in sorted key order and SymbolTable.read rebuilds the table in that order: the declaration order of a reloaded class or module namespace is lost",
+                    "key": "symtab-order:write:" + it, "confirmed": True})
+    # JSON: SymbolTable.serialize builds a JSON object; the object is dumped with sorted keys
+    dnode, _ = func_node(resolve("mypy.util:json_dumps"))
+    src = ast.unparse(dnode)
+    sorts = "OPT_SORT_KEYS" in src or "sort_keys=True" in src
+    snode, _ = func_node(resolve("mypy.nodes:SymbolTable.serialize"))
+    as_object = any(isinstance(n, ast.Subscript) and isinstance(n.ctx, ast.Store) and ast.unparse(n.value) == "data" for n in ast.walk(snode))
+    if as_object and sorts:
+        st, detail = "refuted", "SymbolTable.serialize stores the symbols as members of one JSON object and util.json_dumps writes objects with sorted keys: the declaration order is lost in the JSON format too"
+    elif as_object and not sorts:
+        st, detail = "discharged", ""
+    else:
+        st, detail = "unknown", ""
+    obs.append({"name": "symtab/json-writer-keeps-table-order", "status": st, "where": "mypy/nodes.py SymbolTable.serialize + mypy/util.py json_dumps", "detail": detail,
+                "key": "symtab-order:json:object-with-sorted-keys", "confirmed": True})
+    return obs
+
+
+def targets_order(tier):
+    from pyvc.runner import StaticCheck
+
+    return [StaticCheck("codec.nodes.SymbolTable.order", check_table_order, note="traversal order of the two writers, decided on the source; native witness selftest/c11_order_witness.py")]
